@@ -478,6 +478,8 @@ def extract_cycle(repo, CYCLE, R):
     text = common_rules(R, "\n".join(fl))
     text = R.sub("X1.fn_generic", r"fn cycle_refs<T>\(", "fn cycle_refs(", text, expect=1)
     text = R.sub("X6.debug_cycle", r"(?m)^\s*#\[cfg\(debug_assertions\)\]\n\s*debug_cycle\(&\w+\);\n", "", text)
+    # X5: Verus has no reference patterns; `if let Some(&V) = E {` is `if let Some(V__r) = E { let V = *V__r;` for Copy values
+    text = R.sub("X5.ref_pattern", r"if let Some\(&(\w+)\) = (.+?) \{", r"if let Some(\1__r) = \2 { let \1 = *\1__r;", text)
     parts.append(annotate_fn(R, text.split("\n"), CYCLE["cycle_refs"], "cycle_refs"))
     ol = dedent(cut_method(lines, r"^impl<T> Rc<T> \{", "orphaned_cycle", "Rc::orphaned_cycle"))
     text = common_rules(R, "\n".join(ol))
